@@ -244,10 +244,10 @@ theorem C10_oneof_wrongty (valid : List Str) (r : Bool) (v : Val) (h1 : v ≠ .n
 
 /-! ### Integer -/
 
-/-- what `enforce_length` checks: `value < 10**length` -/
+/-- what `enforce_length` checks: `abs(value) < 10**length` -/
 def intFits (l : Option Nat) (i : Int) : Bool :=
   match l with
-  | some n => decide (i < (10 : Int) ^ n)
+  | some n => decide (i.natAbs < 10 ^ n)
   | none => true
 
 theorem intEnforceLength_ok (l : Option Nat) (i : Int) :
@@ -256,7 +256,7 @@ theorem intEnforceLength_ok (l : Option Nat) (i : Int) :
   cases l with
   | none => simp
   | some n =>
-    by_cases h : i < (10 : Int) ^ n
+    by_cases h : i.natAbs < 10 ^ n
     · simp [h] <;> omega
     · simp [h] <;> omega
 
@@ -277,19 +277,25 @@ theorem C10_integer_limits_read (l : Option Nat) (r : Bool) (i : Int) :
   simp only [integerConvert, hne, if_false, pyIntParse_pyStrInt, intEnforceLength_ok]
   split <;> rfl
 
-/-- at the limit: `10^n − 1` passes, `10^n` is refused -/
-theorem C10_integer_limits (n : Nat) (r : Bool) :
-    integerUnconvert (some n) r (.int ((10 : Int) ^ n - 1)) = .ok (.str (pyStrInt ((10 : Int) ^ n - 1))) ∧
-    integerUnconvert (some n) r (.int ((10 : Int) ^ n)) = .error .spec ∧
-    integerConvert (some n) r (.str (pyStrInt ((10 : Int) ^ n - 1))) = .ok (.int ((10 : Int) ^ n - 1)) ∧
-    integerConvert (some n) r (.str (pyStrInt ((10 : Int) ^ n))) = .error .spec := by
-  have hlt : (10 : Int) ^ n - 1 < (10 : Int) ^ n := by
-    generalize (10 : Int) ^ n = x; omega
+/-- at the limit: `±(10^n − 1)` pass, `±10^n` are refused, on write and on read -/
+theorem C10_integer_limits (n : Nat) (r : Bool) (neg : Bool) :
+    let top : Int := if neg then -(((10 ^ n - 1 : Nat) : Int)) else ((10 ^ n - 1 : Nat) : Int)
+    let over : Int := if neg then -(((10 ^ n : Nat) : Int)) else ((10 ^ n : Nat) : Int)
+    integerUnconvert (some n) r (.int top) = .ok (.str (pyStrInt top)) ∧
+    integerUnconvert (some n) r (.int over) = .error .spec ∧
+    integerConvert (some n) r (.str (pyStrInt top)) = .ok (.int top) ∧
+    integerConvert (some n) r (.str (pyStrInt over)) = .error .spec := by
+  have hpos : 0 < 10 ^ n := Nat.pow_pos (by decide)
+  have h1 : ∀ b : Bool, (if b then -(((10 ^ n - 1 : Nat) : Int)) else ((10 ^ n - 1 : Nat) : Int)).natAbs = 10 ^ n - 1 := by
+    intro b; cases b <;> simp
+  have h2 : ∀ b : Bool, (if b then -(((10 ^ n : Nat) : Int)) else ((10 ^ n : Nat) : Int)).natAbs = 10 ^ n := by
+    intro b; cases b <;> simp
+  simp only []
   refine ⟨?_, ?_, ?_, ?_⟩
-  · rw [C10_integer_limits_write]; simp [intFits, hlt]
-  · rw [C10_integer_limits_write]; simp [intFits]
-  · rw [C10_integer_limits_read]; simp [intFits, hlt]
-  · rw [C10_integer_limits_read]; simp [intFits]
+  · rw [C10_integer_limits_write]; simp only [intFits, h1]; simp; omega
+  · rw [C10_integer_limits_write]; simp only [intFits, h2]; simp
+  · rw [C10_integer_limits_read]; simp only [intFits, h1]; simp; omega
+  · rw [C10_integer_limits_read]; simp only [intFits, h2]; simp
 
 /-- inverse law: every `int` the length check lets through is written as `str(i)` and reads back -/
 theorem C10_integer_inv (l : Option Nat) (r : Bool) (i : Int) (h : intFits l i = true) :
@@ -325,21 +331,20 @@ theorem C10_integer_canon (l : Option Nat) (r : Bool) (s : Str) (v : Val)
   · have := C10_integer_inv l r i hf
     exact ⟨_, this.1, this.2⟩
 
-/-- full-strength limit: an `n`-digit integer element holds `|value| < 10^n` -/
-def C10_integer_limits_full : Prop :=
-  ∀ (n : Nat) (r : Bool) (i : Int), (∃ t, integerUnconvert (some n) r (.int i) = .ok t) ↔ i.natAbs < 10 ^ n
-
-/-- false on the pinned tree: only `value >= 10**length` is checked, `Integer(3)` writes −10⁹ -/
-theorem C10_integer_limits_full_false : ¬ C10_integer_limits_full := by
-  intro h
-  have := (h 3 false (-1000000000)).mp ⟨_, by rw [C10_integer_limits_write]; rfl⟩
-  exact absurd this (by decide)
-
-/-- the true limit statement: accepted exactly when `value < 10^n` -/
-theorem C10_integer_limits_partial (n : Nat) (r : Bool) (i : Int) :
-    (∃ t, integerUnconvert (some n) r (.int i) = .ok t) ↔ i < (10 : Int) ^ n := by
+/-- full-strength limit (holds since `fix: Integer length limit applies to negative values too`): an `n`-digit
+    integer element is written exactly when `|value| < 10^n` -/
+theorem C10_integer_limits_full (n : Nat) (r : Bool) (i : Int) :
+    (∃ t, integerUnconvert (some n) r (.int i) = .ok t) ↔ i.natAbs < 10 ^ n := by
   rw [C10_integer_limits_write]
-  by_cases h : i < (10 : Int) ^ n <;> simp [intFits, h]
+  by_cases h : i.natAbs < 10 ^ n <;> simp [intFits, h]
+
+/-- the same limit on read, for every text `int()` accepts -/
+theorem C10_integer_limits_full_read (n : Nat) (r : Bool) (s : Str) (i : Int) (hs : s ≠ [])
+    (hp : pyIntParse s = some i) :
+    (∃ v, integerConvert (some n) r (.str s) = .ok v) ↔ i.natAbs < 10 ^ n := by
+  have hl : s.length ≠ 0 := by simpa using hs
+  simp only [integerConvert, hl, if_false, hp, intEnforceLength_ok]
+  by_cases h : i.natAbs < 10 ^ n <;> simp [intFits, h, bind, Except.bind, pure, Except.pure]
 
 /-- full-strength wrong-type law: only `int` (and `None`) is written -/
 def C10_integer_wrongty_full : Prop :=
